@@ -199,18 +199,22 @@ def run(chk):
     import pandas as pd
     cats = [("CAS", "SF"), ("CASS", "F"), ("CA", "SSF")]
     pr = [Fraction(1, 2), Fraction(1, 3), Fraction(1, 6)]
-    for N in (2, 3):
+    cats_concat = cats
+    for N, colnames in ((2, ["CDR3A", "CDR3B"]), (3, ["CDR3A", "CDR3B"]), (3, ["cdr3", "cdr3"]), (2, ["v", "v"])):      # (also two columns sharing one label)
+        # with a shared label the categories differ in the FIRST of the same-named columns only
+        cats = cats_concat if colnames[0] != colnames[1] else [("CA", "X"), ("CB", "X"), ("CA", "Y")]
         tot = Fraction(0)
         for xs in itertools.product(range(3), repeat=N):
             w = Fraction(1)
             for i in xs:
                 w *= pr[i]
-            df = pd.DataFrame([cats[i] for i in xs], columns=["CDR3A", "CDR3B"])
+            df = pd.DataFrame([cats[i] for i in xs])
+            df.columns = colnames
             tot += w * Fraction(float(st.pc(df))).limit_denominator(10 ** 6)
-        chk.case(nontrivial_key=("E-rows", N))
+        chk.case(nontrivial_key=("E-rows", N, tuple(colnames)))
         if tot != sum(x ** 2 for x in pr):
-            chk.violation("C06|pc-table|biased", f"E[pc(table)] = {tot} != sum p^2 = {sum(x ** 2 for x in pr)} for row-valued categories, N={N}",
-                          {"N": N, "categories": cats})
+            chk.violation("C06|pc-table|biased", f"E[pc(table)] = {tot} != sum p^2 = {sum(x ** 2 for x in pr)} for row-valued categories, N={N}, columns {colnames}",
+                          {"N": N, "categories": cats, "columns": colnames})
     # two-sample: E[pc(x, y)] = sum p q, exact enumeration over small samples
     # (category labels: single letters; labels of different widths where one is a prefix of another - as lists and as
     # NumPy arrays whose dtypes then differ between the samples; integer vs float ids)
